@@ -45,6 +45,7 @@ import random
 import sys
 import textwrap
 import threading
+import time
 import uuid
 
 from bqskit.ir.circuit import Circuit  # noqa: F401  (import order)
@@ -170,6 +171,7 @@ class Gate:
         self.label = None
         self.info = None
         self.passthrough = False
+        self.thread_ident = None
 
     def park(self, label, info=None):            # worker side
         if self.passthrough:
@@ -183,8 +185,30 @@ class Gate:
         self.arrived.release()
 
     def wait(self):                              # harness side
-        if not self.arrived.acquire(timeout=TIMEOUT):
-            raise SimHang('thread did not reach a gate (label=%s)' % self.label)
+        """Wait for the thread to park.  A thread that is slow (loaded box) but moving is waited
+        for; one whose frame does not change over 3 samples (TIMEOUT seconds) is a hang."""
+        import traceback as _tb
+        last, same, t0 = None, 0, time.time()
+        while not self.arrived.acquire(timeout=TIMEOUT / 3.0):
+            fr = sys._current_frames().get(self.thread_ident) if self.thread_ident else None
+            sig = None if fr is None else (id(fr), fr.f_lineno, fr.f_lasti)
+            same = same + 1 if sig == last else 0
+            last = sig
+            if same >= 2 or time.time() - t0 > 10 * TIMEOUT:
+                stacks = ['alive threads: %d, waited %.0fs' % (threading.active_count(), time.time() - t0)]
+                me_ = threading.get_ident()
+                for tid, f in sys._current_frames().items():
+                    if tid != me_:
+                        stacks.append('thread %s:\n%s' % (tid, ''.join(_tb.format_stack(f)[-70:])))
+                text = 'thread did not reach a gate (label=%s)\n%s' % (self.label, '\n'.join(stacks))
+                try:        # keep the full picture for diagnosis
+                    import os as _os
+                    d = _os.path.join(_os.path.dirname(_os.path.dirname(_os.path.abspath(__file__))), 'build')
+                    _os.makedirs(d, exist_ok=True)
+                    open(_os.path.join(d, 'c07_gate_timeout_%d.txt' % _os.getpid()), 'w').write(text)
+                except Exception:
+                    pass
+                raise SimHang(text[-6000:])
 
     def advance(self):                           # harness side
         self.go.release()
@@ -329,6 +353,7 @@ class WorkerRig:
             logging.setLogRecordFactory(old)
         # the receiving thread is now running recv_incoming and heads for conn.recv()
         self.rthread = w.incoming_thread
+        self.rgate.thread_ident = self.rthread.ident
         self.rgate.wait()
         assert self.up and self.up[0] == (M.STARTED, wid)
         self.up.clear()
@@ -366,6 +391,7 @@ class WorkerRig:
         self.main_thread = threading.Thread(target=run, daemon=True)
         # the receiving thread: catch an uncaught handler exception (the real thread would die)
         self.main_thread.start()
+        self.gate.thread_ident = self.main_thread.ident
         self.gate.wait()                           # parked at 'loop'
 
     # canonical pc
